@@ -139,7 +139,14 @@ def run_history(ns, rec, hist):
             if op[0] == "mode":
                 w.string_sanitization_mode = sanitize = op[1]
                 continue
-            getattr(w, op[0])(*op[1:])
+            if op[0] == "add_bytes":
+                # a caller-owned scratch buffer, reused (overwritten and grown) right after the call
+                scratch = bytearray(op[1])
+                w.add_bytes(scratch)
+                scratch[:] = b"c" * len(scratch)
+                scratch.extend(b"\x63\x63")
+            else:
+                getattr(w, op[0])(*op[1:])
             name = op[0]
             if name in ("add_byte", "add_char", "add_short", "add_three", "add_int"):
                 expect.append((name.replace("add_", "get_"), (), int(op[1])))  # whatever int type was written, a plain int comes back
